@@ -173,6 +173,35 @@ theorem monitor_sound {pr : PatRouter} {tbl : Table} (hrep : Rep pr.core tbl) (h
       | none => simp [obsOf, monitorObs, hexp, customOf, hnf, hu]
       | some h' => simp [obsOf, monitorObs, hexp, customOf, hnf, hu]
 
+/-- the second monitor rule ("under the hypothesis the outcomes of repeated runs do not differ") is sound too:
+two routers storing the same table (any iteration orders), with the same custom handlers, answer every request
+identically — up to the order of the methods in the Allow header, which the harness sorts. -/
+theorem monitor_determinism_sound {r r' : Router} {tbl : Table} (hrep : Rep r tbl) (hrep' : Rep r' tbl)
+    (hok : TblOK tbl) (hyp : oneVarPerPosition tbl = true) (nf : Option NFHandler) (na : Option H) (m p : String) :
+    PatRouter.serveHTTP ⟨r, nf, na⟩ m p = PatRouter.serveHTTP ⟨r', nf, na⟩ m p ∨
+    ∃ a a', PatRouter.serveHTTP ⟨r, nf, na⟩ m p = .defaultNotAllowed a ∧
+      PatRouter.serveHTTP ⟨r', nf, na⟩ m p = .defaultNotAllowed a' ∧ ∀ z, z ∈ a ↔ z ∈ a' := by
+  unfold PatRouter.serveHTTP
+  cases hs : serve r m p with
+  | handler h ps =>
+    rw [(dispatch_order_irrelevant hrep hrep' hok hyp m p h ps).mp hs]
+    exact Or.inl rfl
+  | notFound =>
+    rw [(status_404 hrep' hok m p).mpr ((status_404 hrep hok m p).mp hs)]
+    exact Or.inl rfl
+  | notAllowed a =>
+    cases hs' : serve r' m p with
+    | handler h ps =>
+      rw [(dispatch_order_irrelevant hrep hrep' hok hyp m p h ps).mpr hs'] at hs; cases hs
+    | notFound =>
+      rw [(status_404 hrep hok m p).mpr ((status_404 hrep' hok m p).mp hs')] at hs; cases hs
+    | notAllowed a' =>
+      cases na with
+      | some h => exact Or.inl rfl
+      | none =>
+        refine Or.inr ⟨a, a', rfl, rfl, fun z => ?_⟩
+        rw [(status_405_allow_exact hrep hok hs).2.2.2 z, (status_405_allow_exact hrep' hok hs').2.2.2 z]
+
 /-- the registration monitor is sound as well: what the model's `Handle` answers is what the rule demands. -/
 theorem monitor_registration_sound {r : Router} {tbl : Table} (hrep : Rep r tbl) (hok : TblOK tbl)
     (m p : String) (item : Option H) :
